@@ -185,7 +185,7 @@ pub fn run_c05(cx: &Ctx) -> i32 {
 }
 
 pub fn run_c09(cx: &Ctx) -> i32 {
-    let k = if cx.quick() { 3 } else { 4 };
+    let k = if cx.quick() { 3 } else { 5 };
     let space = unr_space(k);
     let alphabet = vec!['a', 'b', 'é', '\n'];
     let max_len = 3;
